@@ -94,14 +94,37 @@ func (h *History) Write(s string) (int, error) {
 		return h.Len(), err
 	}
 
-	f, err := os.OpenFile(h.filename, os.O_APPEND|os.O_CREATE|os.O_WRONLY, 0600)
+	f, err := os.OpenFile(h.filename, os.O_APPEND|os.O_CREATE|os.O_RDWR, 0600)
 	if err != nil {
 		return 0, err
 	}
 
-	_, err = f.Write(append(b, '\n'))
+	b = append(b, '\n')
+	if !endsWithNewLine(f) {
+		// a previous write was cut short (eg the shell crashed mid-write).
+		// Start this record on a fresh line so it isn't glued onto the torn
+		// one and lost with it
+		b = append([]byte{'\n'}, b...)
+	}
+
+	_, err = f.Write(b)
 	f.Close()
 	return h.Len(), err
+}
+
+// endsWithNewLine reports whether the file is empty or its last byte is '\n'
+func endsWithNewLine(f *os.File) bool {
+	fi, err := f.Stat()
+	if err != nil || fi.Size() == 0 {
+		return true
+	}
+
+	last := make([]byte, 1)
+	if _, err = f.ReadAt(last, fi.Size()-1); err != nil {
+		return true
+	}
+
+	return last[0] == '\n'
 }
 
 // GetLine returns a specific line from the history file
